@@ -1,2 +1,3 @@
 pub const MAX_FRAME_SIZE: usize = 255;
+pub const MAX_CHANNEL_CAPACITY: usize = 1 << 24;
 pub const REPL_MODULE: &str = "repl.ly";
